@@ -111,6 +111,30 @@ def gen_cases(ctx, exh_len, n_random, max_atoms):
 def run(ctx):
     built = prepare(ctx, ["Gen_grammar"], ["Props/C01.vo", "Corr/Parse.vo"])
     cases = gen_cases(ctx, 5 if ctx.quick else 6, 600 if ctx.quick else 8000, 12 if ctx.quick else 24)
+    # oracle 3 (first, while the parse cache is still empty): the grouping is a function of the string alone -- also after a caller changed, in
+    # place, a tree it was handed earlier (first parse of a string, edit of the returned tree at the root and one level down, second parse)
+    n_hist = 0
+    for s, otoks in [c for c in cases if c[1] is not None and len(c[1]) > 2][-(60 if ctx.quick else 400):]:
+        try:
+            want = pyparse.parse(otoks)
+        except pyparse.Reject:
+            continue
+        r1 = parse_impl(s)
+        if r1[0] != "ok" or not getattr(r1[1], "children", None):
+            continue
+        t1 = r1[1]
+        t1.children.reverse()
+        for ch in t1.children:
+            if getattr(ch, "children", None):
+                del ch.children[0]
+                break
+        t1.children.append(t1.children[0])
+        r2 = parse_impl(s)
+        n_hist += 1
+        if r2[0] != "ok" or pyparse.flat_lark(r2[1]) != want:
+            ctx.fail(f"history|{s}", {"expression": s}, f"grouping {want}", f"{pyparse.flat_lark(r2[1]) if r2[0] == 'ok' else r2[1]}",
+                     "oracle: second parse of a string after the tree returned by its first parse was edited in place")
+    ctx.add_eval(n_hist)
     terms, results = [], []
     for s, otoks_ in cases:
         r = parse_impl(s)
